@@ -96,8 +96,13 @@ def equal(case, impl, expected, mode):
     return _meta.src_equal(case, _strip(impl), expected, mode)
 
 
+KNOWN_PROPS = ['C12'] + SOURCES
+
+
 def spec_ok(case, impl, spec, mode):
-    return _meta.src_spec_ok(case, _strip(impl), spec, mode)
+    """C12 only judges termination: HANG is the violation (cross_mode adds the executed-line budget); value
+    differences are the source property's business, the model correspondence (`equal`) still applies."""
+    return _strip(impl) != 'HANG'
 
 
 def cross_mode(case, impl_by_mode, model):
@@ -109,6 +114,23 @@ def cross_mode(case, impl_by_mode, model):
             if impl['steps'] > STEP_A * size + STEP_B:
                 return 'executed %d lines for input+output size %d (budget %d*size+%d)' % (impl['steps'], size, STEP_A, STEP_B)
     return None
+
+
+def summarize(recs):
+    """measured executed-line counts (interpreted mode) against input+output size"""
+    worst, n, by = 0.0, 0, {}
+    for r in recs:
+        impl = r['impl'].get('nojit')
+        if isinstance(impl, dict) and 'steps' in impl:
+            size = _size(_meta.to_val(r['case'])) + _size(impl['res'])
+            ratio = impl['steps'] / float(size)
+            n += 1
+            worst = max(worst, ratio)
+            p = r['case']['p']
+            by[p] = max(by.get(p, 0.0), round(ratio, 1))
+    hang = sum(1 for r in recs for v in r['impl'].values() if v == 'HANG')
+    return {'steps': {'cases_counted': n, 'max_lines_per_unit_size': round(worst, 1), 'by_source': by,
+                      'budget': '%d*size+%d' % (STEP_A, STEP_B)}, 'hangs': hang}
 
 
 def _adversarial(pid, c):
